@@ -8,6 +8,7 @@ package main
 import (
 	"encoding/json"
 	"fmt"
+	"io"
 	"math/rand"
 	"strconv"
 
@@ -141,6 +142,7 @@ func (p c11Prop) Run(in interface{}) Sx {
 		gate = append(gate, 4+i)
 	}
 	st := newStub(groups, gate)
+	st.endErr = io.ErrUnexpectedEOF           // the end of the script is the end of the connection
 	if w.WFail && w.SMOffer && w.Held != "" { // the fourth write is the <resume/>
 		st.writeFailAt[4] = true
 		if w.MoreFail {
